@@ -125,6 +125,10 @@ func c10Case(ctx *genCtx, ts *tape.Set, dir string) *genResult {
 			res.probe("flags.prior_derived_file")
 		}
 		did = world.MakeCollisions(w, ts.Fork("collide"), mt.Intn(3) > 0, mt.Intn(3) > 0)
+		if mt.Intn(4) == 0 {
+			// a conflict between calls that only become typable in the second pass: the rename happens after a reload
+			did = append(did, world.AddNestedConflict(w, 7000, []string{"sort", "unique"}[mt.Intn(2)]))
+		}
 		outcome = "flags"
 	} else {
 		switch mt.Intn(6) {
@@ -157,6 +161,18 @@ func c10Case(ctx *genCtx, ts *tape.Set, dir string) *genResult {
 			args = append(args, "./q")
 			processed["q"] = true
 		}
+	}
+	if !withFlags && outcome != "read-fault" && mt.Intn(6) == 0 {
+		// a go.mod the go command could "repair" (a replaced module that is imported but not required):
+		// goderive must not let its go list children rewrite it
+		if w.RawFiles == nil {
+			w.RawFiles = map[string]string{}
+		}
+		w.RawFiles["go.mod"] = "module " + world.ModulePath + "\n\ngo 1.24\n\nreplace example.com/wdep => ./dep\n"
+		w.RawFiles["dep/go.mod"] = "module example.com/wdep\n\ngo 1.24\n"
+		w.RawFiles["dep/dep.go"] = "package wdep\n\ntype D struct{ A int }\n"
+		w.RawFiles["p/zz_dep.go"] = "package p\n\nimport \"example.com/wdep\"\n\nvar _ wdep.D\n"
+		res.probe("world.untidy_go_mod")
 	}
 	files := w.Render()
 	var runEnv []string
@@ -256,7 +272,9 @@ func c10Case(ctx *genCtx, ts *tape.Set, dir string) *genResult {
 	}
 	// with flags: user files
 	rewritten, changedIdents := 0, 0
-	d := diffSnap(before, after, func(p string) bool { return isDerivedOfProcessed(p) || (strings.HasSuffix(p, ".go") && strings.HasPrefix(p, "p/")) })
+	d := diffSnap(before, after, func(p string) bool {
+		return isDerivedOfProcessed(p) || (strings.HasSuffix(p, ".go") && strings.HasPrefix(p, "p/"))
+	})
 	if len(d) > 0 {
 		res.V = &genViolation{Clause: "foreign-file-touched", Detail: fmt.Sprintf("flags %v (exit %d): %s", flags, r.Exit, strings.Join(d, "; ")), Facts: facts}
 		return res
